@@ -728,6 +728,19 @@ class CodeGen {
     return (value < 0 && numNibbles(value) == 1) ? 2 : numNibbles(value);
   }
 
+  /// Return true if the next directive that occupies space is DATA.
+  bool precedesData(size_t index) const {
+    for (size_t i = index + 1; i < program.size(); i++) {
+      if (program[i]->getToken() == Token::DATA) {
+        return true;
+      }
+      if (program[i]->getSize() > 0) {
+        return false;
+      }
+    }
+    return false;
+  }
+
   /// Iteratively lay out the program and update label operands until no
   /// instruction has to grow. Every label reference starts with a one-byte
   /// encoding and is only ever extended, so the iteration terminates with the
@@ -743,8 +756,10 @@ class CodeGen {
         bool isLabel = directive->getToken() == Token::IDENTIFIER ||
                        directive->getToken() == Token::FUNC ||
                        directive->getToken() == Token::PROC;
-        // Data must be on 4-byte boundaries.
-        if (directive->getToken() == Token::DATA) {
+        // Data must be on 4-byte boundaries, and a label naming a data word
+        // must have the address of that word.
+        if (directive->getToken() == Token::DATA ||
+            (isLabel && precedesData(i))) {
           if (byteOffset & 0x3) {
             byteOffset += 4 - (byteOffset & 0x3);
           }
